@@ -18,6 +18,7 @@ type Profile struct {
 	DynShape    int // chance (in 100) of dynShape (faces with ids from the real face table)
 	ScopeShape  int // chance (in 100) of scopeShape
 	SatShape    int // chance (in 100) of satisfiedShape
+	McastShape  int // chance (in 100) of mcastShape
 	DnlShape    int // chance (in 100) that a history contains the dead-nonce re-report shape (dnlRereport)
 	FibChurn    int // chance (in 100) of a FIB/strategy/face change between packets
 	DefaultToNL int // chance (in 100) of a default route towards a non-local face
@@ -27,7 +28,7 @@ type Profile struct {
 
 var (
 	P01 = Profile{ID: "C01", DnlShape: 4, DynShape: 20, ScopeShape: 15, SatShape: 4, Localhost: 8, DataRatio: 45, NextHop: 3, Hints: 10, FibChurn: 6, DefaultToNL: 30, LinkSvc: 35, RealTCP: 10}
-	P02 = Profile{ID: "C02", DnlShape: 20, DynShape: 5, ScopeShape: 4, SatShape: 20, Localhost: 6, DataRatio: 25, NextHop: 10, Hints: 20, FibChurn: 15, DefaultToNL: 30, LinkSvc: 35, RealTCP: 10}
+	P02 = Profile{ID: "C02", DnlShape: 20, DynShape: 5, ScopeShape: 4, SatShape: 20, McastShape: 15, Localhost: 6, DataRatio: 25, NextHop: 10, Hints: 20, FibChurn: 15, DefaultToNL: 30, LinkSvc: 35, RealTCP: 10}
 	P09 = Profile{ID: "C09", DnlShape: 4, DynShape: 10, ScopeShape: 15, SatShape: 4, Localhost: 45, DataRatio: 40, NextHop: 12, Hints: 8, FibChurn: 8, DefaultToNL: 70, LinkSvc: 50, RealTCP: 35}
 )
 
@@ -222,6 +223,32 @@ func (s *genSt) scopeShape() {
 		s.g.Op("D %d %s - %d @%s", lo, lh, r.Range(1, 250), n)
 		s.g.Stat("scope-shape-token")
 	}
+}
+
+/* mcastShape: multicast forwarded the Interest on a face that has since left the FIB entry; a retransmission
+   with another nonce inside the suppression interval must still be aggregated (the window looks at every
+   out-record of the entry, not only at those of the current next hops). */
+func (s *genSt) mcastShape() {
+	r := s.r
+	f, x := s.face(), s.face()
+	for x == f {
+		x = s.face()
+	}
+	y := s.face()
+	for y == f || y == x {
+		y = s.face()
+	}
+	n := common.NameText(nm(common.Pick(r, alphabet), "mc"))
+	s.g.Op("strat %s multi", n)
+	s.g.Op("fib %s %d 1", n, x)
+	s.g.Op("I %d %s 0 0 51 - 4000 - - -", f, n)
+	s.g.Op("unfib %s %d", n, x)
+	s.g.Op("fib %s %d 1", n, y)
+	if r.Chance(1, 2) {
+		s.advMs(common.Pick(r, []int{10, 100, 400}))
+	}
+	s.g.Op("I %d %s 0 0 52 - 4000 - - -", f, n)
+	s.g.Stat("mcast-shape")
 }
 
 /* satisfiedShape: a satisfied PIT entry is re-used before the sweep removes it; when it then expires
@@ -534,6 +561,9 @@ func Gen(g *common.Gen, p Profile) {
 		}
 		if r.Intn(100) < p.ScopeShape {
 			s.scopeShape()
+		}
+		if r.Intn(100) < p.McastShape && len(s.faces) >= 3 {
+			s.mcastShape()
 		}
 		if r.Intn(100) < p.DynShape {
 			s.dynShape()
